@@ -51,7 +51,7 @@ def main():
                 "level_claimed": {
                     "category": "other",
                     "text": f"[{r['strength']}] static analysis: " + r["claim"] + " Decides the listed structural clauses, not the behaviour.",
-                    "design_ref": f"DESIGN.md section 4, {pid}",
+                    "design_ref": f"DESIGN.md section 4 ({pid}: clauses claimed) and section 11.5 (deciding method as built)",
                 },
                 "level_note": r.get("note", "")
                 + " Trusted base: CPython ast; the reference tables coded in the checker; library semantics named in the evidence. "
